@@ -38,6 +38,7 @@ func scenarios(tier string) []sched.Scenario {
 		{Name: "spurious-failover", Fault: "spurious-failover", Clients: 2, PerCli: 1, SyncData: true},
 		// the node swapped in is empty: it is restored from a snapshot of the leader and replays the rest
 		{Name: "swap", Fault: "swap", Clients: 2, PerCli: 1, SyncData: true},
+		{Name: "swap-snapshot-lead", Fault: "swap-snapshot-lead", Clients: 0, PerCli: 0, SyncData: true, RealDisk: true},
 	}
 	dev := 1
 	if tier == "thorough" {
